@@ -4,6 +4,7 @@ C15 — exactness for commuting generators, with Mathlib's matrix exponential.
 -/
 import OFV.Proofs.C15
 import Mathlib.Analysis.Normed.Algebra.MatrixExponential
+import Mathlib.Analysis.SpecialFunctions.Exponential
 
 namespace OFV.C15
 open OFV.Model.C15 Matrix NormedSpace
@@ -52,5 +53,37 @@ theorem simulate_times_sum (perm : List Nat → List Nat) (r : Nat → Rat) (ord
   rw [simulateLoop_times_sum]
   have : (nSteps : Rat) ≠ 0 := by exact_mod_cast hn
   field_simp
+
+/-- the Suzuki leaf-time recursion over an arbitrary commutative ring -/
+def leafTimesK {K : Type} [CommRing K] (r : Nat → K) : Nat → K → List K
+  | 0, t => [t]
+  | 1, t => [t]
+  | k + 2, t =>
+    leafTimesK r (k + 1) (t * r (k + 2)) ++ leafTimesK r (k + 1) (t * r (k + 2))
+      ++ leafTimesK r (k + 1) (t - 4 * (t * r (k + 2)))
+      ++ leafTimesK r (k + 1) (t * r (k + 2)) ++ leafTimesK r (k + 1) (t * r (k + 2))
+
+/-- `∏_{j=2}^{k} (4 r_j^p + (1 - 4 r_j)^p)` -/
+def suzukiFactor {K : Type} [CommRing K] (r : Nat → K) (p : Nat) : Nat → K
+  | 0 => 1
+  | 1 => 1
+  | k + 2 => (4 * r (k + 2) ^ p + (1 - 4 * r (k + 2)) ^ p) * suzukiFactor r p (k + 1)
+
+theorem times_eq_leafTimesK (perm : List Nat → List Nat) (r : Nat → Rat) :
+    ∀ k q t, (performStep perm r k q t).map (·.time) = leafTimesK r k t
+  | 0, _, _ => rfl
+  | 1, _, _ => rfl
+  | k + 2, q, t => by
+    simp only [performStep, List.map_append, times_eq_leafTimesK perm r (k + 1), leafTimesK]
+
+theorem leafTimesK_power_sums {K : Type} [CommRing K] (r : Nat → K) (p : Nat) :
+    ∀ k t, ((leafTimesK r k t).map (· ^ p)).sum = t ^ p * suzukiFactor r p k
+  | 0, _ => by simp [leafTimesK, suzukiFactor]
+  | 1, _ => by simp [leafTimesK, suzukiFactor]
+  | k + 2, t => by
+    simp only [leafTimesK, List.map_append, List.sum_append, leafTimesK_power_sums r p (k + 1), suzukiFactor]
+    have : t - 4 * (t * r (k + 2)) = t * (1 - 4 * r (k + 2)) := by ring
+    rw [this, mul_pow, mul_pow]
+    ring
 
 end OFV.C15
